@@ -144,14 +144,14 @@ pub fn render(lines: &[Line]) -> String {
             }
             let bits = l.spell.num.rotate_left(j as u32 * 2);
             match o {
-                Opnd::Reg(r) => s.push_str(&format!("r{r}")),
+                Opnd::Reg(r) => s.push_str(&format!("r{}", reg_digits(*r))),
                 Opnd::Int(v) => s.push_str(&spell_num(*v, bits, false)),
                 Opnd::Hex64(h) => s.push_str(&format!("0x{h:x}")),
                 Opnd::Mem(r, off) => {
                     if *off == 0 && bits & 16 != 0 {
-                        s.push_str(&format!("[r{r}]"));
+                        s.push_str(&format!("[r{}]", reg_digits(*r)));
                     } else {
-                        s.push_str(&format!("[r{r}{}]", spell_num(*off, bits, true)));
+                        s.push_str(&format!("[r{}{}]", reg_digits(*r), spell_num(*off, bits, true)));
                     }
                 }
             }
@@ -166,7 +166,17 @@ pub fn render(lines: &[Line]) -> String {
 // ---- generators ----------------------------------------------------------------------------
 
 fn reg_strategy() -> impl Strategy<Value = i64> {
-    prop_oneof![80 => 0i64..16, 1 => prop::sample::select(vec![16i64, 17, 99, 255, 256])]
+    prop_oneof![80 => 0i64..16, 1 => prop::sample::select(vec![16i64, 17, 99, 255, 256]), 1 => prop::sample::select(vec![-1i64, -2, -16, -241, i64::MIN, i64::MIN + 3, i64::MAX, 1 << 32, (1 << 32) + 3])]
+}
+
+/// A negative register value stands for the register number 2^64 + r (a number of 20 digits that
+/// fits in 64 bits but not in 63): no register at all.
+fn reg_digits(r: i64) -> String {
+    if r < 0 {
+        (r as u64).to_string()
+    } else {
+        r.to_string()
+    }
 }
 
 fn off_strategy() -> impl Strategy<Value = i64> {
